@@ -547,9 +547,17 @@ class ConnectionPool(Entity):
 
     def _create_connection(self) -> Generator[float, None, Connection]:
         """Create a new connection to the target."""
-        # Simulate connection establishment time
-        latency = self._connection_latency.get_latency(self.now)
-        yield latency.to_seconds()
+        # Reserve the slot before suspending: acquirers that arrive while this
+        # connection is being established must count it against max_connections.
+        self._total_connections += 1
+        try:
+            # Simulate connection establishment time
+            latency = self._connection_latency.get_latency(self.now)
+            yield latency.to_seconds()
+        except BaseException:
+            # Establishment failed or was abandoned - give the slot back
+            self._total_connections -= 1
+            raise
 
         self._next_connection_id += 1
         connection = Connection(
@@ -558,7 +566,6 @@ class ConnectionPool(Entity):
             last_used_at=self.now,
             is_active=False,
         )
-        self._total_connections += 1
         self._connections_created += 1
 
         logger.debug(
